@@ -4,4 +4,4 @@ From Codegen Require Import Codegen.
 Definition gen_codegen_facts : facts :=
   mkFacts (mkLF AsgName DsList RetBracket false) (mkLF AsgName DsList RetBracket false)
           (mkLF AsgName DsList RetBracket true) (mkLF AsgLitK DsSplat RetBare true)
-          OrdDep true true true true.
+          OrdDep true true true true IaFrozen UtZero.
